@@ -49,6 +49,12 @@ def check(run, repo, tier):
   r5_exact_text(run, w, mod, ce)
 
 
+def _keep(mod, ce):
+  """module helpers the rules look into themselves"""
+  return ("_parse_interval", "_parse_slot", "_round_down_to_unit", "_fail") + \
+      tuple(_func_names_dict(ce, mod, "_SLOT_PARSERS").values())
+
+
 def _regex(ce, name):
   v = ce.name(name)
   if not isinstance(v, H.Regex):
@@ -103,6 +109,7 @@ def r1_slot_tables(run, w, mod, ce):
   # the default used by _parse_slot when the unit is not listed, and the dispatch
   ps = w.fn(M + "._parse_slot")
   v = H.View(ps)
+  run = H.Guarded(run, v, keep=_keep(mod, ce))
   cfg = ps.cfg
   disp = [(n, c, v.res(c.func)) for (n, c, nm) in ps.calls()
           if isinstance(v.res(c.func), ast.Subscript) and
@@ -345,8 +352,10 @@ def r3_units(run, w, mod, ce):
     run.ob(R3, "%s._INTERVAL_ALIASES" % M, "%r: %r" % (k, v), "an alias stands for a positive "
            "count of a known unit", ok, fi=None)
   # _parse_interval: the unit returned is known to be a valid unit
+  run0 = run
   pi = w.fn(M + "._parse_interval")
   pv = H.View(pi)
+  run = H.Guarded(run0, pv, keep=_keep(mod, ce))
   cfg = pi.cfg
   rets = [(n, pv.res(n.stmt.value)) for n in cfg.nodes if n.kind == "return" and
           n.stmt.value is not None]
@@ -361,6 +370,7 @@ def r3_units(run, w, mod, ce):
   # Delta.add_interval: months / years by hand, everything else is a timedelta keyword
   ai = w.fn(M + ".Delta.add_interval")
   av = H.View(ai)
+  run = H.Guarded(run0, av, keep=_keep(mod, ce))
   up = ai.fi.params()[2]
   td = [c for c in calls_in(ai.node.body) if dotted(c.func) == "timedelta" and
         any(k.arg is None for k in c.keywords)]
